@@ -32,6 +32,7 @@ import (
 	"sort"
 	"strings"
 
+	"golang.org/x/perf/benchmath"
 	"golang.org/x/perf/benchstat"
 	"golang.org/x/perf/internal/stats"
 )
@@ -277,6 +278,23 @@ func utClass(c *utCase) Verdict {
 		v.Signature = "u-statistic"
 		v.Detail = fmt.Sprintf("U=%v, pair counting gives %v", res.U, float64(c.U)/2)
 		return v
+	}
+	if c.Alt == "two" {
+		// the path benchstat itself takes for the two-sided test: benchmath's assume-nothing
+		// comparison (judged first: stats.MannWhitneyUTest's own two-sided value is a listed finding)
+		thr := benchmath.Thresholds{CompareAlpha: 0.05}
+		s1 := benchmath.NewSample(append([]float64(nil), in1...), &thr)
+		s2 := benchmath.NewSample(append([]float64(nil), in2...), &thr)
+		for _, o := range []struct {
+			name string
+			cmp  benchmath.Comparison
+		}{{"Compare(s1,s2)", benchmath.AssumeNothing.Compare(s1, s2)}, {"Compare(s2,s1)", benchmath.AssumeNothing.Compare(s2, s1)}} {
+			if !ratEq(o.cmp.P, c.Want, c.Total) {
+				v.Signature = "compare-two-sided"
+				v.Detail = fmt.Sprintf("benchmath.AssumeNothing.%s: P=%v, twice the smaller exact tail capped at 1 is %d/%d=%v", o.name, o.cmp.P, c.Want, c.Total, float64(c.Want)/float64(c.Total))
+				return v
+			}
+		}
 	}
 	if !ratEq(res.P, c.Want, c.Total) {
 		v.Signature = utClassify(c.Alt, res.P, c.Ab, c.Total)
